@@ -367,21 +367,15 @@ def main():
     known = load_known(pid)
 
     # ---- step 1: tie (extractor) + proofs -------------------------------------------------
-    os.makedirs(build.BUILD, exist_ok=True)
-    lock = open(os.path.join(build.BUILD, ".lock"), "w")
-    fcntl.flock(lock, fcntl.LOCK_EX)
+    ext_errs, fingerprints = build.run_extract()
+    ok_props, t_lake, log_props = build.lake_build(["Strophe.Props." + pid])
+    ok_drv, t_drv, log_drv = build.lake_build(["drv"])
     try:
-        ext_errs, fingerprints = build.run_extract()
-        ok_props, t_lake, log_props = build.lake_build(["Strophe.Props." + pid])
-        ok_drv, t_drv, log_drv = build.lake_build(["drv"])
-        try:
-            hdrv = build.build_harness(prop.VARIANT)
-            h_err = None
-        except build.BuildError as e:
-            hdrv = None
-            h_err = e.what + "\n" + e.log
-    finally:
-        fcntl.flock(lock, fcntl.LOCK_UN)
+        hdrv = build.build_harness(prop.VARIANT)
+        h_err = None
+    except build.BuildError as e:
+        hdrv = None
+        h_err = e.what + "\n" + e.log
     thms, n_examples = props_decls(pid)
     obligations = len(thms) + n_examples
     discharged = obligations if ok_props else 0
